@@ -63,7 +63,13 @@ def c13_precedence(tier="quick", seed=0):
 
 
 REJECT = ["(1", "[1, 2", "{ var a = 1;", "f(1, 2", "'abc", '"abc', "'abc\n'", "/* never closed", "var s = 'x' /* open", "1 = 2", "x + y = 3", "x++ = 2", "++1", "(a, b) = 1", "f() = 1", "1++",
-          "var a = /abc", "if (x) { ", "function f( { }", "a ? b", "a ? b : ", "var 1a = 2", "x = = 2", "for (;;", "({a:1", "[1,,", "try { } ", "switch (x) { case }", "a b c )", "`unterminated"]
+          "var a = /abc", "if (x) { ", "function f( { }", "a ? b", "a ? b : ", "var 1a = 2", "x = = 2", "for (;;", "({a:1", "[1,,", "try { } ", "switch (x) { case }", "a b c )", "`unterminated",
+          # a regular expression literal ends on its own line (what follows on later lines is other code, also when it contains a slash)
+          "var r = /ab+c;\nvar half = 10 / 2;\nr", "var r = /ab+c\n/.test('x')", "f(/a\n/)", "var r = /[a\n]/", "x = /a\\\nb/", "x = /a\rb/", "x = /a\u2028b/", "x = /a\u2029/", "x = /a\\\r/",
+          # ECMA-262 13.6: a unary operator may not stand directly before ** (neither grouping is meant)
+          "-2 ** 2", "!1 ** 2", "typeof 1 ** 2", "2 ** -2 ** 2", "void 0 ** 1", "+1 ** 2", "~1 ** 2", "var a = 1; delete a ** 2", "var a = 1; -a ** 2", "- -2 ** 2",
+          # elements of an array literal are separated by commas
+          "[[1] 5]", "[1 2]", "[[1] [2] 3]", "[1, [2] 3]", "[[1], [2] 'x']", "[{} 1]", "[[[1]] 2]"]
 def _invalid_targets():
     """assignment / update expressions whose target is not a reference, under 0-3 redundant parentheses and inside the
     places an expression can stand (ECMA-262 13.15.1 / 13.4.1 early errors: AssignmentTargetType must be simple)"""
@@ -86,7 +92,14 @@ def _invalid_targets():
 ACCEPT_SAME = [("1+2*3", " 1 +\t2 /*c*/ * // d\n 3 "), ("var a=[1,2,3];a[1]", "var a = [ 1 , 2 , 3 ] ;\n a [ 1 ]"), ("(function(x){return x*2})(4)", "( function ( x ) { return x * 2 } ) ( 4 )"),
                ("'a'+\"b\"", "(('a')) + ((\"b\"))"), ("0x1F+0b11+0o17+1e2+.5", "31 + 3 + 15 + 100 + 0.5"), ("'\\x41\\u0042\\n\\'\\\"'", "\"AB\\n'\\\"\""), ("1.50e+1", "15"), ("010 + 1", "11"),
                ("var x=5;x>3?'y':'n'", "var x = 5 ; ( ( x ) > ( 3 ) ) ? ( 'y' ) : ( 'n' )"), ("var o={a:{b:[1,{c:2}]}};o.a.b[1].c", "var o = { a : { b : [ 1 , { c : 2 } ] } } ; ( ( ( o . a ) . b ) [ 1 ] ) . c"),
-               ("var i=0,s=0;for(;i<3;i++){s+=i}s", "var i = 0 , s = 0 ;\nfor ( ; i < 3 ; i ++ ) { s += i }\ns"), ("2**3**2", "2 ** (3 ** 2)"), ("-2**2 === undefined || true", "true"),
+               ("var i=0,s=0;for(;i<3;i++){s+=i}s", "var i = 0 , s = 0 ;\nfor ( ; i < 3 ; i ++ ) { s += i }\ns"), ("2**3**2", "2 ** (3 ** 2)"), ("(-2)**2", "4"), ("-(2**2)", "-4"), ("2**-2", "0.25"), ("var a=2;++a**2", "9"), ("var a=2;a++**2+a", "7"),
+               ("var b=2;b**=3;b", "8"), ("var b=2,c=3;b**=c**=2;[b,c].join()", "'512,9'"), ("var o={x:2};o.x**=3;o.x", "8"),
+               # the consequent and the alternate of ?: are assignment expressions
+               ("var y=0;var r=false?1:y=7;[r,y].join()", "'7,7'"), ("var y=0;var r=true?y=3:4;[r,y].join()", "'3,3'"), ("var y=0,z=0;true?y=1:z=2;[y,z].join()", "'1,0'"), ("var f=0?null:x=>x*2;f(4)", "8"),
+               ("var f=1?x=>x+1:null;f(4)", "5"), ("var y=1;var r=0?1:0?2:y+=5;r", "6"), ("var a=0?1:2,b=3;b", "3"),
+               # an elision is an element (it reads as undefined)
+               ("[1,,2].length", "3"), ("[,].length", "1"), ("[1,,].length", "2"), ("[,,1,,].length", "4"), ("[1,,2][1]===undefined", "true"), ("[[1],,[2]].length", "3"), ("[1,].length", "1"),
+               ("String([1,,3][2])", "'3'"),
                ("/\\d+/.test('12')", "(/\\d+/.test('12'))"), ("/'/.test(\"'\")", "(/'/.test(\"'\"))"), ("/[/]/.test('/')", "[/[/]/.test('/')][0]"), ("/#@/.test('#@')", "(((/#@/).test('#@')))"),
                ("/\\//.test('/')", "!(!(/\\//.test('/')))"), ("'a/b'.split(/\\//).length", "('a/b'.split((/\\//)).length)"), ("/\"/.test('\"')", "(/\"/.test('\"'))"),
                ("var f = function(r){ return r.source }; f(/a'b/)", "var f = function(r){ return r.source }; (f((/a'b/)))"), ("/\\)/.test(')')", "(/\\)/.test(')'))"), ("/[(]/.test('(')", "((/[(]/).test('('))"),
@@ -340,6 +353,41 @@ def c13_positions(tier="quick", seed=0):
         wl, wc = (ln, cl + len(pre)) if ln == 1 else (ln, cl)
         if res != [wl, wc] and bad["throw"] is None:
             bad["throw"] = (tsrc, f"location {res}, the throw keyword is at {[wl, wc]}")
+    # the other line terminators (CR, CR LF, LS, PS) in the trivia: the reported place is the character's under one of the two
+    # sensible conventions -- only LF starts a line (the lexer's own), or every LineTerminator does with CR LF as one -- never a
+    # line the text does not have
+    import random
+    r = random.Random(seed + 7)
+    triv = [" ", "\t", "\n", "\r\n", "\r", "\u2028", "\u2029", "/* c */", "/* a\r\n b */", "// line\r\n", "// l\r", "/* x\u2028y */", "\r\n\r\n", " \n "]
+    for _ in range(n // 3):
+        lead = "".join(r.choice(triv) for _k in range(r.randint(1, 8)))
+        if lead.rstrip(" \t").endswith("\r") or "// l\r" in lead and False:
+            pass
+        la, ca, lb, cb = 1, 1, 1, 1
+        i = 0
+        while i < len(lead):
+            ch = lead[i]
+            if ch == "\n":
+                la, ca = la + 1, 1
+            else:
+                ca += 1
+            if ch == "\r" and lead[i + 1:i + 2] == "\n":
+                pass                                  # (counted with the LF that follows)
+            elif ch in "\n\r\u2028\u2029":
+                lb, cb = lb + 1, 1
+            else:
+                cb += 1
+            i += 1
+        cnt["syntax-error"] += 1
+        try:
+            Context(time_limit=10).eval(lead + "@")
+            res = "accepted"
+        except JSSyntaxError as e:
+            res = (e.line, e.column)
+        except Exception as e:  # noqa
+            res = "!" + type(e).__name__
+        if res not in ((la, ca), (lb, cb)) and bad["syntax-error"] is None:
+            bad["syntax-error"] = (lead + "@", f"JSSyntaxError at {res}; the character is at {(la, ca)} (lines end at LF) or {(lb, cb)} (lines end at every LineTerminator)")
     return [ob(f"C13.bounded.positions.{k}", b is None, "B", f"{cnt[k]} layouts" if b is None else b[1], witness=(b[0] if b else None), confirmed=True if b else None, domain=cnt[k])
             for k, b in bad.items()]
 
